@@ -16,8 +16,9 @@ META = {
         "histories of add/remove/move that keep the discipline (moves and re-adds only on unregistered atoms): query + distance "
         "filter = brute force, no duplicates. The model is the code's int()-then-// bucket and 27-cell scan, tied to cells.py by "
         "exact comparison of ordered query results on random (also undisciplined) op sequences. That pdb2pqr's own histories keep "
-        "the discipline is not a theorem: it is checked by monitoring every neighbour query of real runs against brute force and by "
-        "replaying real traces in the model."
+        "the discipline is not a theorem: it is checked by monitoring every neighbour query of real runs against brute force, by an "
+        "invariant sweep at every query (an atom removed from its residue or moved while still registered is reported as a latent breach "
+        "as soon as the same cell map is queried again, whether or not a query near it is issued) and by replaying real traces in the model."
     ),
     "level_note": (
         "Trusted: Coq kernel+vm_compute; the hand model Model/Cells.v (tied by differential execution); exact float->rational "
@@ -193,6 +194,8 @@ THOROUGH_INPUTS = QUICK_INPUTS + [
     ("1AJJ.pdb", ["--ff=PARSE", "--titration-state-method=propka", "--with-ph=2.0"]),
     ("1BX8.pdb", ["--ff=SWANSON", "--titration-state-method=propka", "--with-ph=10.0"]),
     ("1K1I.pdb", ["--ff=TYL06", "--nodebump"]),
+    # Carboxylic.rename with a left-over *2 hydrogen (finding C14-F5f)
+    ("1US0.pdb", ["--ff=PARSE", "--titration-state-method=propka", "--with-ph=2.0"]),
 ]
 
 
@@ -326,13 +329,13 @@ def run(ctx):
         if err:
             ctx.notes.append(f"{pdb} {extra_args}: run ended with {err}")
         seen = set()
-        for f in mon.misses + mon.ghosts:
+        for f in mon.misses + mon.ghosts + mon.latent:
             sig = {"site": f["site"], "cause": f["cause"], "kind": f["kind"]}
             key = core.sha(sig)
             if key in seen:
                 continue
             seen.add(key)
-            ctx.fail(sig, f"real history {pdb} {' '.join(extra_args)}: {f['kind']} of {f['atom']} ({f['cause']} at {f['site']}; query from {f['query']})", {"pdb": pdb, "args": extra_args, "finding": f, "count": sum(1 for g in mon.misses + mon.ghosts if (g['site'], g['cause'], g['kind']) == (f['site'], f['cause'], f['kind']))})
+            ctx.fail(sig, f"real history {pdb} {' '.join(extra_args)}: {f['kind']} of {f['atom']} ({f['cause']} at {f['site']}; query from {f['query']})", {"pdb": pdb, "args": extra_args, "finding": f, "count": sum(1 for g in mon.misses + mon.ghosts + mon.latent if (g['site'], g['cause'], g['kind']) == (f['site'], f['cause'], f['kind']))})
         if k == 0:
             ctx.sample({"real_run": pdb, "args": extra_args, "queries": mon.queries, "ops": mon.ops, "misses": len(mon.misses), "ghosts": len(mon.ghosts)})
         if keep and mon.trace:
@@ -364,6 +367,6 @@ def replay(ctx, data):
         return 1 if bad else 0
     mon, err = run_real(ctx, case["pdb"], case["args"])
     f = case["finding"]
-    hits = [g for g in mon.misses + mon.ghosts if (g["site"], g["cause"]) == (f["site"], f["cause"])]
+    hits = [g for g in mon.misses + mon.ghosts + mon.latent if (g["site"], g["cause"]) == (f["site"], f["cause"])]
     print(f"replay: {len(hits)} occurrences of {f['cause']} at {f['site']}")
     return 1 if hits else 0
